@@ -136,7 +136,8 @@ class EngineCheck(PropertyCheck):
         st_tot = res.distribution.setdefault("engine", {})
         for (i, c, h), m in zip(good, mouts):
             dropped = any(l.endswith("dropped") for l in m)
-            wf = any(l == "ok wf" for l in m)
+            wf = any(l.startswith("ok wf") for l in m)
+            st_tot["det_programs"] = st_tot.get("det_programs", 0) + (1 if any(l.startswith("ok ") and l.endswith(" det") for l in m) else 0)
             st_tot["wf_programs"] = st_tot.get("wf_programs", 0) + (1 if wf else 0)
             st_tot["histories_with_dropped_pending"] = st_tot.get("histories_with_dropped_pending", 0) + (1 if dropped else 0)
             rej = [l for l in m if l and not l.startswith("ok")]
